@@ -1,5 +1,6 @@
 import Chain33Model.Model.C26
 import Chain33Model.Proofs.C26
+import Chain33Model.Proofs.C25Deliver
 /-!
 C26 — Block sequence log replays to the best chain.  Property theorems.
 
@@ -44,6 +45,32 @@ theorem replay_eq_best (fin margin : Nat) (g : Block) (bs : List Block) :
   have h := (logInv_mainPred _ (init_lastSeq_ge fin margin true g)).deliverAll bs _
     (logInv_init fin margin true g)
   exact h.2.2 ((recSeq_mainPred true).deliverAll bs _ rfl)
+
+/-- **replay_eq_chain.**  Replaying the log reproduces exactly the current best chain *as stored
+in the height index*: the replayed stack read bottom-up is the block hash at every height
+`0..last`, and there is no entry above `last` — for any history (any blocks, any order). -/
+theorem replay_eq_chain (fin margin : Nat) (g : Block) (hg : g.height = 0) (bs : List Block) :
+    let s := deliverAll (init fin margin true g) bs
+    ∃ stack, replay (seqLog s) = some stack ∧ replayedChain s = some stack.reverse ∧
+      mainChain s = stack.reverse.map some ∧ cleanAbove s = true := by
+  intro s
+  have hrep := replay_eq_best fin margin g bs
+  have hi : Inv s := deliverAll_inv fin margin true g hg bs
+  obtain ⟨t, r, hbest⟩ := List.exists_cons_of_ne_nil hi.linked.ne_nil
+  have hl : Linked (t :: r) := hbest ▸ hi.linked
+  have hlast : s.last = t.height := hi.last t r hbest
+  refine ⟨s.best.map (·.id), hrep, by simp only [replayedChain]; rw [show replay (seqLog s) = _ from hrep]; rfl, ?_, ?_⟩
+  · have h1 : (s.last + 1).toNat = t.height + 1 := by omega
+    simp only [mainChain, h1]
+    rw [show (List.range (t.height + 1)).map s.h2h = (List.range (t.height + 1)).map (view (t :: r)) from
+      List.map_congr_left (fun k _ => by rw [hi.h2h k, hbest])]
+    rw [range_view_linked r t hl, hbest]
+    simp [List.map_reverse]
+  · have h1 : (s.last + 1).toNat = t.height + 1 := by omega
+    have h2 : (s.last + 2).toNat = t.height + 2 := by omega
+    simp only [cleanAbove, h1, h2, hi.h2h, hbest]
+    rw [view_above hl _ (by omega), view_above hl _ (by omega)]
+    rfl
 
 /-- Non-vacuity / sanity: a concrete history with a reorganisation (trunk 1, branch 2–3 vs
 heavier branch 4, margin 1) produces a log with a delete record, and it replays to the chain. -/
